@@ -22,15 +22,15 @@ import signatures
 # profiles of the harness that matter for each property
 PROFILES = {
     "C01": ["mixed", "time", "maxfails", "cancel", "loss", "happy", "timeretract", "bigbody"],
-    "C02": ["mixed", "open", "variants", "mn", "retract", "loss", "timeretract", "retract2"],
+    "C02": ["mixed", "open", "variants", "mn", "retract", "loss", "timeretract", "retract2", "blocked"],
     "C03": ["mixed", "open", "maxfails", "happy", "cancel"],
     "C04": ["variants", "mixed", "cancel", "retract"],
     "C05": ["variants", "mn", "retract", "time", "mixed", "cancel", "variants2", "timeretract"],
     "C06": ["retract", "loss", "mixed", "variants"],
     "C07": ["loss", "mn", "mixed", "maxfails"],
     "C08": ["cancel", "retract", "mixed", "open", "mn", "retract2"],
-    "C09": ["mixed", "retract", "cancel", "loss", "maxfails", "open", "stream", "mn", "time", "variants", "timeretract", "retract2", "variants2", "bigbody"],
-    "C13": ["open", "stream", "maxfails", "mixed", "cancel"],
+    "C09": ["mixed", "retract", "cancel", "loss", "maxfails", "open", "stream", "mn", "time", "variants", "timeretract", "retract2", "variants2", "bigbody", "waiters", "blocked"],
+    "C13": ["open", "stream", "maxfails", "mixed", "cancel", "waiters"],
     "C14": ["maxfails", "mixed"],
 }
 
@@ -277,8 +277,9 @@ def run_inner(pid, tier, seed):
                            "(trace validation); model-checking numbers of the design model are reported under 'mc' when present",
         }
         assumptions_extra = []
-        if pid in ("C06", "C07"):
-            # the restart clauses of C06/C07 are decided on restores of real journals
+        if pid in ("C03", "C06", "C07"):
+            # the restart clauses of C03/C06/C07 (a restart must not lose a dependency on an unfinished task, must not reuse an
+            # instance id, must keep the crash counts) are decided on restores of real journals
             import journal_engine
             jr = journal_engine.run(pid, tier, seed)
             violations += jr["violations"]
